@@ -5,10 +5,10 @@ import json, subprocess
 CLAIMED = {
  # id: (level category, technique, text, note, design_ref)
  "C01": ("model_checking", "symbolic execution of every decode entry point (bit-precise floats, tables as uninterpreted functions) + exhaustive ground table obligations decided by the SMT solver in exact integer arithmetic",
-         "Every decode entry point returns its package's table entry for all codes at once (wiring); all 3 x 65,792 table entries - built by the executor from the current SSA and bit-identical to the native build (checked each run) - are within 3e-7 of the published EOTF, with exact end points, strict monotonicity and T8[v]=T16[257v].",
+         "Every decode entry point returns its package's table entry for all codes at once (wiring: per-component decoders, the 8-bit constructors, and the generic constructor / LineariseColor on opaque NRGBA, RGBA, NRGBA64, RGBA64, Gray, Gray16); the three packages' tables are independent of one another in every initialisation order; all 3 x 65,792 table entries - built by the executor from the current SSA and bit-identical to the native build (checked each run) - are within 3e-7 of the published EOTF, with exact end points, strict monotonicity and T8[v]=T16[257v].",
          "Trusted: executor, z3 (used as exact-arithmetic oracle for the ground part: that part is exhaustive evaluation, not search), the platform's math.Pow for concrete arguments. Oracle: IEC 61966-2-1, Adobe RGB (1998), ISO 22028-2 written algebraically.", "DESIGN.md 5 C01"),
  "C02": ("model_checking", "bit-precise FP queries over all float32 values (z3/cvc5 portfolio), reals-with-rounding-error queries, uninterpreted-table wiring, exhaustive ground table obligations",
-         "Clamp/range/no-panic for every float32 bit pattern incl. NaN; monotonicity for all pairs; |N(x)-S*x| <= 0.5+s_N; encoders are LUT[N(x)] on both init paths and colour types use the right encoder; all 3 x 66,048 encode-table entries within 0.5+s_T codes of the published OETF.",
+         "Clamp/range/no-panic for every float32 bit pattern incl. NaN; monotonicity for all pairs; |N(x)-S*x| <= 0.5+s_N; encoders are LUT[N(x)] on both init paths and colour types use the right encoder; a package's encoder result does not change when the other packages' tables come into existence (all six initialisation orders, all x); all 3 x 66,048 encode-table entries within 0.5+s_T codes of the published OETF.",
          "Trusted: executor, solvers, IEEE-754 rounding model (|err| <= u|x|+eta, monotone) for the real-arithmetic parts, gc/amd64 float->int conversion model. Literal half-code reading is relaxed by the a-priori slacks of DESIGN 3.1.", "DESIGN.md 5 C02"),
  "C20": ("model_checking", "exact real arithmetic with rational functions (NRA) for algebra/inverse/primaries; bit-precise float64 queries for exact singularity",
          "Matrix algebra equals the textbook definitions for all reals; M*Inverse(M)=Inverse(M)*M=I for |det|>=1e-3; generated primaries matrices map (1,1,1) to the white point and unit primaries to their chromaticities for all non-degenerate triangles; Inverse panics on zero/equal-column float64 matrices.",
